@@ -106,7 +106,7 @@ fn check_plain(e: &adblock::Engine, r: &mut Rng) -> Out {
     let mut out = Out { evals: 0, nt: None, viol: vec![], parsed: false, sample: None };
     let (h_in, h_norm, h_reg) = *r.pick(HOSTS);
     let scheme = r.ps(SCHEMES);
-    let userinfo = r.ps(&["", "", "", "user@", "user:pw@", "u%40x@"]);
+    let userinfo = r.ps(&["", "", "", "", "user@", "user:pw@", "u%40x@", "ü@", "üser@", "señor:contraseña@", "名前:パスワード@", "user:p🔒@", "a@b@"]);
     let port = r.ps(&["", "", "", ":80", ":443", ":8080", ":"]);
     let path = r.ps(PATHS);
     let is_ip = h_in.starts_with('[') || h_in.starts_with(|c: char| c.is_ascii_digit());
